@@ -60,10 +60,11 @@ static const Proto PR[] = {
 	{ "bus", nng_bus0_open, nng_bus0_open, 2 },
 };
 
+static size_t g_tag_len = 48;
 static int
 send_tag(nng_socket s, uint32_t serial)
 {
-	nng_msg *m = tag_msg(48, 1, 0, serial);
+	nng_msg *m = tag_msg(g_tag_len, 1, 0, serial);
 	if (m == NULL)
 		return NNG_ENOMEM;
 	int rv = nng_sendmsg(s, m, 0);
@@ -97,6 +98,8 @@ exchange(const Proto &pr, nng_socket a, nng_socket b, uint32_t serial)
 			    serial);
 		uint32_t got;
 		uint32_t want = serial + (uint32_t) attempt * 1000;
+		// (later attempts are longer: a buffer that a failure left short shows)
+		g_tag_len = 48 + (size_t) attempt * 40 + (size_t) (serial % 3) * 24;
 		if (chk(send_tag(a, want), "nng_sendmsg", true) != 0)
 			continue;
 		int rv;
@@ -152,6 +155,8 @@ sp_run(Params *p)
 	if (pr.open_a == nng_req0_open)
 		RETRY(nng_socket_set_ms(a, NNG_OPT_REQ_RESENDTIME, 100), "nng_socket_set_ms");
 	std::string  url = h_url(tr, 90);
+	if (p->i("udp", 0))
+		url = "udp://127.0.0.1:5990";
 	if (p->i("longurl", 0) && (tr == TR_INPROC || tr == TR_WS || tr == TR_IPC)) {
 		// a URL that does not fit the parser's inline buffer
 		url += std::string(150, 'u');
